@@ -212,6 +212,177 @@ def kf_pipeline(pid, cfg, results, tier, seed):
 
 
 # ------------------------------------------------------------------------------------------------
+# C19 / C13 bounded stand-in (NOT proof): the multi-file attribution oracle.  Small projects (2-3 files of different length,
+# one or two of them with ONE injected fault: lexical, syntactic, definition-gathering or type) go through the real
+# mamba_to_python in one call.  Oracle, written from the property text: the project is rejected; every diagnostic names a
+# file that HAS a fault and no other file; the line it quotes next to line number L is verbatim line L of the file it names.
+# It complements unit PIPE: when a restructuring of lib.rs makes PIPE undecided (anchor lost), this still decides the
+# attribution on its bound and yields a concrete failing project.
+_CLEAN = ["def a{i} := {c}\n", "def f{i}(x: Int) -> Int => x + {c}\n\n\ndef v{i} := f{i}(1)\n",
+          "def g{i}(x: Int) -> Int =>\n    def y := x + {c}\n    y\n\n\ndef w{i} := g{i}(2)\ndef z{i} := w{i} + 1\n"]
+_FAULTS = [("lexical", 'def s%d := "abc\n'), ("syntax", "def t%d := 3 +\n"),
+           ("definitions", "def h%d(a: Int := 1, b: Int) -> Int => a\n"), ("type", "def u%d: Str := 4\n")]
+
+
+def _clean_text(kind, i):
+    return _CLEAN[kind].format(i=i, c=i + 1)
+
+
+def _project_cases():
+    cases = []
+    for n in (2, 3):
+        for j in range(n):
+            for fk, (fname, ftext) in enumerate(_FAULTS):
+                for lead in (0, 1, 2):
+                    files = []
+                    for i in range(n):
+                        # files of different length; the faulty one gets `lead` as its clean prefix
+                        text = _clean_text((i + j + fk) % 3, 10 * i)
+                        if i == j:
+                            text = _clean_text(lead, 10 * i) + ("\n\n" if lead else "") + (ftext % (10 * i + 7))
+                        files.append(["f%d.mamba" % i, text])
+                    cases.append({"files": files, "faulty": [j], "fault": fname})
+    # two faulty files around a clean one
+    for fk, (fname, ftext) in enumerate(_FAULTS):
+        files = [["f0.mamba", _clean_text(1, 0) + "\n\n" + (ftext % 7)], ["f1.mamba", _clean_text(2, 10)],
+                 ["f2.mamba", _clean_text(0, 20) + "\n\n" + (ftext % 27)]]
+        cases.append({"files": files, "faulty": [0, 2], "fault": fname})
+    return cases
+
+
+def _check_project(case, txt):
+    """-> list of complaints (empty: the oracle holds)"""
+    import re
+    lines = (txt or "").splitlines()
+    head = [l for l in lines if l.startswith("OK|") or l.startswith("ERR|")]
+    if not head:
+        return None
+    if head[0].startswith("OK|"):
+        return ["the project has a fault in %s but was accepted" % ", ".join("f%d.mamba" % j for j in case["faulty"])]
+    msgs = [l[4:].replace("\\n", "\n").replace("\\x7c", "|").replace("\\\\", "\\") for l in lines if l.startswith("MSG|")]
+    bad = []
+    if not msgs:
+        bad.append("rejected without any diagnostic")
+    texts = {name: text for name, text in case["files"]}
+    for m in msgs:
+        named = [name for name in texts if ("src/" + name) in m]
+        if len(named) != 1:
+            bad.append("a diagnostic names %s (want exactly one file): %r" % (named or "no file", m[:160]))
+            continue
+        idx = int(named[0][1:-6])
+        if idx not in case["faulty"]:
+            bad.append("a diagnostic names %s, which has no fault: %r" % (named[0], m[:160]))
+            continue
+        flines = texts[named[0]].split("\n")
+        for q in re.finditer(r"^\s*(\d+) \| (.*)$", m, re.M):
+            ln, quoted = int(q.group(1)), q.group(2)
+            if ln < 1 or ln > len(flines) or flines[ln - 1] != quoted:
+                bad.append("line %d quoted as %r is not line %d of %s" % (ln, quoted, ln, named[0]))
+    return bad
+
+
+def pipe_bounded(pid, cfg, results, tier, seed):
+    out = {"info": {"kind": "bounded stand-in (NOT proof): small multi-file projects through the real mamba_to_python", "runs": []},
+           "violations": [], "undecided": [], "known": [], "cmds": [], "trusted": []}
+    ok, log = replay.build()
+    if not ok:
+        out["undecided"].append("replay binary unavailable: " + log[-400:])
+        return out
+    out["cmds"].append("vxreplay project <dir> on generated projects (2-3 files, 4 fault kinds, every position of the faulty file)")
+    cases = _project_cases()
+    failing = 0
+    for ci, case in enumerate(cases):
+        rc, txt = replay.run_case({"kind": "project", "files": case["files"]})
+        bad = _check_project(case, txt)
+        if bad is None:
+            out["undecided"].append("project case %d did not run: %s" % (ci, (txt or "")[-200:]))
+            break
+        if bad:
+            failing += 1
+            if failing <= 3:
+                out["violations"].append(({"unit": "PIPE-BOUNDED"}, {
+                    "obligation": "PIPE-BOUNDED::attribution::case_%d_%s" % (ci, case["fault"]), "kind": "bounded", "fn": "mamba_to_python",
+                    "message": "multi-file attribution oracle fails: " + "; ".join(bad[:3]),
+                    "rendered": "files:\n%s\noutput:\n%s" % ("\n".join("--- %s\n%s" % (n, t) for n, t in case["files"]), (txt or "")[:1200]),
+                    "case": {"kind": "project", "files": case["files"]}}))
+    out["info"]["runs"].append({"check": "multi-file attribution", "bound": "%d generated projects: 2-3 files x faulty file x {lexical, syntax, definitions, type} x 3 positions, + 4 with two faulty files" % len(cases),
+                                "failing_projects": failing})
+    return out
+
+
+# ------------------------------------------------------------------------------------------------
+# C13 bounded stand-in (NOT proof): small project trees through the real transpile_dir on a scratch directory.  Oracle, from the
+# property text: an accepted project leaves exactly one .py per .mamba at the same relative path under the output directory and
+# nothing else; a project with a faulty file is rejected and leaves no .py at all.
+def _tree_cases():
+    ok1, ok2, ok3 = _clean_text(0, 0), _clean_text(1, 10), _clean_text(2, 20)
+    bad = "def u7: Str := 4\n"
+    shapes = [
+        ("flat", None, ["a.mamba", "b.mamba"]),
+        ("nested", None, ["top.mamba", "pkg/one.mamba", "pkg/sub/two.mamba"]),
+        ("custom source dir", "lib/mamba", ["m.mamba", "inner/n.mamba"]),
+        ("custom target", None, ["x.mamba", "d/y.mamba"]),
+    ]
+    cases = []
+    for name, src, rels in shapes:
+        sdir = src or "src"
+        texts = [ok1, ok2, ok3]
+        target = "out" if name == "custom target" else None
+        files = [[sdir + "/" + r, texts[i % 3]] for i, r in enumerate(rels)]
+        cases.append({"name": name, "src": src, "target": target, "files": files, "srcdir": sdir, "rels": rels, "faulty": False})
+        for j in range(len(rels)):
+            f2 = [list(x) for x in files]
+            f2[j][1] = f2[j][1] + "\n\n" + bad
+            cases.append({"name": name + ", fault in " + rels[j], "src": src, "target": target, "files": f2, "srcdir": sdir, "rels": rels, "faulty": True})
+    return cases
+
+
+def tree_bounded(pid, cfg, results, tier, seed):
+    out = {"info": {"kind": "bounded stand-in (NOT proof): small project trees through the real transpile_dir on a scratch directory", "runs": []},
+           "violations": [], "undecided": [], "known": [], "cmds": [], "trusted": []}
+    ok, log = replay.build()
+    if not ok:
+        out["undecided"].append("replay binary unavailable: " + log[-400:])
+        return out
+    out["cmds"].append("vxreplay transpile <scratch project> <src> <target>, then the written tree is compared")
+    cases = _tree_cases()
+    failing = 0
+    for ci, case in enumerate(cases):
+        rc, txt = replay.run_case({"kind": "transpile", "files": case["files"], "src": case["src"], "target": case["target"]})
+        lines = (txt or "").splitlines()
+        head = [l for l in lines if l.startswith("OK|") or l.startswith("ERR|")]
+        if not head:
+            out["undecided"].append("tree case %d did not run: %s" % (ci, (txt or "")[-200:]))
+            break
+        wrote = sorted(l[6:] for l in lines if l.startswith("WROTE|"))
+        tdir = case["target"] or "target"
+        bad = []
+        if case["faulty"]:
+            if head[0].startswith("OK|"):
+                bad.append("a project with a faulty file was accepted")
+            py = [w for w in wrote if w.endswith(".py")]
+            if py:
+                bad.append("a rejected project left Python behind: %s" % py)
+        else:
+            want = sorted(tdir + "/" + r[:-6] + ".py" for r in case["rels"])
+            if head[0].startswith("ERR|"):
+                bad.append("a valid project was rejected")
+            elif wrote != want:
+                bad.append("written tree %s, want exactly %s" % (wrote, want))
+        if bad:
+            failing += 1
+            if failing <= 3:
+                out["violations"].append(({"unit": "PROJ-BOUNDED"}, {
+                    "obligation": "PROJ-BOUNDED::tree::case_%d" % ci, "kind": "bounded", "fn": "transpile_dir",
+                    "message": "project tree oracle fails (%s): %s" % (case["name"], "; ".join(bad)),
+                    "rendered": "files: %s\noutput:\n%s" % ([f for f, _ in case["files"]], (txt or "")[:1200]),
+                    "case": {"kind": "transpile", "files": case["files"], "src": case["src"], "target": case["target"]}}))
+    out["info"]["runs"].append({"check": "project trees", "bound": "%d scratch projects: 4 layouts (flat, nested, custom source dir, custom target), each valid and with a type fault in each file" % len(cases),
+                                "failing_projects": failing})
+    return out
+
+
+# ------------------------------------------------------------------------------------------------
 # C11: the flag may only be READ inside functions under contract (convert_def) or at the plumbing
 # sites that copy it from the command line into the generator state.  A new reader makes the check
 # undecided (never a silent pass, never an alarm).
